@@ -369,9 +369,20 @@ inline void scheduler_threads(const vf::opts &o, vf::report &R, vf::team &T, uin
                 else { sch = std::make_unique<cocls::scheduler>(); sch->start_thread(); }
                 auto t0 = sysclock::now();
                 std::vector<std::unique_ptr<cocls::future<void>>> shortf;
-                for (int i = 0; i < nshort; i++) shortf.push_back(std::unique_ptr<cocls::future<void>>(new cocls::future<void>(
-                    rt_sleeper(*sch, t0 + std::chrono::microseconds(200 + 400 * r.below(5)), &tags[i], st[i], early[i]).start())));
-                for (int i = 0; i < npend; i++) pend.push_back(std::unique_ptr<cocls::future<void>>(new cocls::future<void>(sch->sleep_until(t0 + std::chrono::seconds(3600), nullptr))));
+                // far sleeps first in half of the rounds, and give the worker time to go to sleep on them: the short sleeps scheduled
+                // afterwards must then WAKE the worker (a missing notification leaves them waiting for an hour -> quiescence watchdog)
+                bool far_first = r.chance(1, 2);
+                auto add_far = [&] { for (int i = 0; i < npend; i++) pend.push_back(std::unique_ptr<cocls::future<void>>(new cocls::future<void>(sch->sleep_until(t0 + std::chrono::seconds(3600 + 60 * i), nullptr)))); };
+                if (far_first) { add_far(); if (npend && r.chance(2, 3)) std::this_thread::sleep_for(std::chrono::microseconds(200 + 200 * r.below(4))); }
+                // short sleeps in descending deadline order in some rounds: each one is earlier than the current head of the heap
+                bool descending = r.chance(1, 2);
+                for (int i = 0; i < nshort; i++) {
+                    int slot = descending ? (nshort - 1 - i) : (int)r.below(5);
+                    shortf.push_back(std::unique_ptr<cocls::future<void>>(new cocls::future<void>(
+                        rt_sleeper(*sch, t0 + std::chrono::microseconds(300 + 500 * slot), &tags[i], st[i], early[i]).start())));
+                    if (descending && r.chance(1, 2)) std::this_thread::sleep_for(std::chrono::microseconds(50));
+                }
+                if (!far_first) add_far();
                 if (do_cancel && nshort) {
                     int k = (int)r.below((uint32_t)nshort);
                     if (r.chance(1, 2)) std::this_thread::sleep_for(std::chrono::microseconds(100 + 300 * r.below(5)));
